@@ -43,6 +43,10 @@ var memberKinds = []mkind{
 	{"nullable-string", `{"oneOf":[{"type":"string"},{"type":"null"}]}`, `{"type":"string","nullable":true}`, `string | null`},
 	{"nullable-ref", `{"oneOf":[{"$ref":"#/definitions/S"},{"type":"null"}]}`, `{"allOf":[{"$ref":"#/components/schemas/S"}],"nullable":true}`, `S | null`},
 	{"constant", `{"type":"string","const":"s"}`, `{"type":"string","enum":["s"]}`, `"s"`},
+	// references to the struct holding the member / to the root (a default on a
+	// self-referencing field)
+	{"ref-enclosing", `{"$ref":"#/definitions/Inner"}`, `{"$ref":"#/components/schemas/Inner"}`, `Inner`},
+	{"ref-root", `{"$ref":"#/definitions/Root"}`, `{"$ref":"#/components/schemas/Root"}`, `Root`},
 	// a constant member of an enum: only CUE has it
 	{"constant-ref", ``, ``, `E & "a"`},
 }
@@ -164,11 +168,18 @@ func structDefaultConfigCases(plainPipe string) []configCase {
 					}
 					schema = cueSchema
 				}
-				for _, key := range []string{"m", "zz"} {
+				for _, key := range []string{"m", "zz", "@member"} {
 					if key == "zz" && m.Name != "string" {
 						continue
 					}
 					passes := fmt.Sprintf("passes: [{fields_set_default: {defaults: {p.Root.inner: {%s: %s}}}}]\n", key, v.JSON)
+					if key == "@member" {
+						// the default set on the member itself
+						if placement != "ref" {
+							continue
+						}
+						passes = fmt.Sprintf("passes: [{fields_set_default: {defaults: {p.Inner.m: %s}}}]\n", v.JSON)
+					}
 					files := configFiles(plainPipe, passes, noVeneers)
 					files["p.json"] = schema
 					if cueSchema != "" {
@@ -179,6 +190,9 @@ func structDefaultConfigCases(plainPipe string) []configCase {
 					name := m.Name
 					if key == "zz" {
 						name = "no-such-member"
+					}
+					if key == "@member" {
+						name += " (set on the member)"
 					}
 					out = append(out, configCase{ID: "passes/fields_set_default struct default " + placement + " member " + name + " := " + v.JSON, Files: files, Doc: passes + schema})
 				}
